@@ -220,8 +220,10 @@ class RecFile(object):
         self.events = []
 
     def write(self, data):
-        if not isinstance(data, bytes):
+        if isinstance(data, str):
             raise TypeError("binary")
+        if isinstance(data, (bytearray, memoryview)):
+            data = bytes(data)  # real binary files take any bytes-like object and copy it at once
         if data:
             self.events.append(bytes(data))
             if self.sched is not None:
